@@ -30,8 +30,8 @@ CHECKS = {
          "Trusted: Coq kernel+VM; tools/py2coq.py; CPython ast.parse as the definition of 'parses as Python'; the harness's user_names; the all-paths abstraction (values ignored, every branch possible). Theorems closed under the global context.",
          "Rocq proof of a definite-assignment checker (sound+complete for all-paths semantics) evaluated by the kernel on every emitted program", "DESIGN.md section 6 C06"),
  "C07": ("translation_validation",
-         "Coq theorems: every tensor-producing operation of the modelled runtime only allocates (fresh_ops_frame: pre-existing objects, hence user inputs, and the environment are untouched), setRankIds writes only its receiver, the compiler-side tensor name spells the active ranks + kernel-evaluated post-condition on the final state of every execution (every <Name>_<Ranks> variable holds those rank ids; results bound under declared name/rank order in original coordinates; every input unchanged).",
-         EXEC_NOTE, "Rocq frame theorems on the runtime model + kernel-evaluated post-conditions on every execution", "DESIGN.md section 6 C07"),
+         "Coq theorems: C07_rankty_sound (a certified static checker on an abstract rank-id semantics of emitted programs - tensor object = location, rank ids, who allocated it, whose data it holds; all paths, any number of loop iterations, aliasing, setRankIds mutating in place: an accepted program has no bad execution and every terminating execution ends with every <Name>_<Ranks> variable truthful, inputs and results bound, user objects never renamed/populated/updated), C07_rankty_chk_sound, C07_rankty_leb_sound, C07_rankty_user_objects_kept, C07_rankty_straight_line_complete; every tensor-producing operation of the modelled runtime only allocates (fresh_ops_frame), setRankIds writes only its receiver, the compiler-side tensor name spells its active ranks. The checker is evaluated by the kernel on EVERY emitted program (a rejection is a broken obligation with a failing-input search) and its predicted final rank ids are compared with the interpreter's on every executed case + kernel-evaluated post-conditions on the final state of every execution (names, result under its declared name/rank order/original coordinates vs the oracle, inputs unchanged).",
+         EXEC_NOTE + "The abstract rank-id semantics Model/RankTy.v is trusted and tied to Model/Interp.v through the rank ids of the final state of every executed case (Model/RankTyTie.v).", "Rocq proof of a rank-id/alias checker evaluated per program + frame theorems on the runtime model + kernel-evaluated post-conditions on every execution", "DESIGN.md section 0A / 6 C07"),
  "C15": ("translation_validation",
          "Correspondence-heavy (partial): deep snapshots of the five parsed objects around HiFiber(...) must be equal; a second compilation from the same objects must succeed with identical text; three compilation orders in fresh processes must give identical text per specification; Model/BindStore.v (buffet defaults + eager expansion, with/without sharing) is tied by T-eq to the real BuffetComponent. Theorems: with a private copy any sequence of component constructions leaves the store unchanged and is repeatable; the pinned tree's sharing is refuted with a witness (finding F2, fixed).",
          "Trusted: Coq kernel+VM; the snapshot function (observable state = recursive vars() of parsed objects); sampled compilation orders.", "snapshot/recompile/order correspondence + Rocq model of the bindings store tied by T-eq", "DESIGN.md section 6 C15"),
